@@ -31,6 +31,7 @@ type reproDesc struct {
 type c07Stats struct {
 	cases, builds, stamps, procs int
 	envs                        map[string]int
+	built                       map[string]int
 	distinct                    map[string]struct{}
 	samples                     []string
 }
@@ -198,6 +199,15 @@ func runC07Case(w *caseWriter, id string, d reproDesc, first map[string]string, 
 		st.procs++
 		st.envs[strings.Join(env, " ")]++
 		w.line("rbuild %s %s %s %s %s %s %s %d", xs(f), xs(a), xs(b), xs(c), xs(e), xs(late), xs(strings.Join(env, " ")), nAbs)
+		if strings.HasPrefix(a, "pkg:") {
+			st.built[f]++
+			if strings.Contains(d.YAML, "0-big2.bin") {
+				st.built[f+" with large files first"]++
+			}
+			if d.SDE != "" {
+				st.built[f+" with the mtime from SOURCE_DATE_EPOCH"]++
+			}
+		}
 		if raw != nil {
 			if o, derr := decodePackage(f, raw); derr == nil || o != nil {
 				for _, s := range o.Stamps {
@@ -225,6 +235,9 @@ func reproConfig(g *pkgGen, i int) genOut {
 	if c.RPM.BuildHost == "" {
 		c.RPM.BuildHost = "buildhost.example"
 	}
+	// every configuration builds in every format (a platform apk and archlinux refuse would leave the special
+	// shapes below unexercised for them, depending on the draw)
+	c.Platform = ""
 	c.Deb.Signature.KeyFile, c.RPM.Signature.KeyFile, c.APK.Signature.KeyFile = "", "", ""
 	// several entries in every map that reaches the output
 	if c.Deb.Fields == nil {
@@ -289,7 +302,7 @@ func cmdC07(tier string, seed int64, out, statsOut, replay string) {
 	_, cleanup := pkgWorkdir()
 	defer cleanup()
 	w := newCaseWriter(out)
-	st := &c07Stats{envs: map[string]int{}, distinct: map[string]struct{}{}}
+	st := &c07Stats{envs: map[string]int{}, built: map[string]int{}, distinct: map[string]struct{}{}}
 	manyFiles()
 	if replay != "" {
 		i := 0
@@ -340,6 +353,12 @@ func cmdC07(tier string, seed int64, out, statsOut, replay string) {
 		runC07Case(w, fmt.Sprintf("repro-%d", i), d, firsts[i], i, st)
 	}
 	w.close()
-	writeJSON(statsOut, map[string]any{"cases": st.cases, "builds_compared": st.builds, "child_processes": st.procs, "child_environments": st.envs,
+	floors := map[string][]int{}
+	for _, f := range allFormats {
+		floors["configurations built as "+f] = []int{st.built[f], n / 2}
+		floors["configurations built as "+f+" with large files first"] = []int{st.built[f+" with large files first"], 1}
+		floors["configurations built as "+f+" with the mtime from SOURCE_DATE_EPOCH"] = []int{st.built[f+" with the mtime from SOURCE_DATE_EPOCH"], 1}
+	}
+	writeJSON(statsOut, map[string]any{"floors": floors, "cases": st.cases, "builds_compared": st.builds, "child_processes": st.procs, "child_environments": st.envs,
 		"timestamps_decoded": st.stamps, "distinct": len(st.distinct), "distinct_nontrivial": len(st.distinct), "samples": st.samples})
 }
